@@ -37,7 +37,7 @@ def build(shape, rng, solver_results=False):
     cfg = parse_config_dict(raw)
     x = np.linspace(0, 100.0, nx, endpoint=False)
     y = np.linspace(0, 60.0, ny, endpoint=False)
-    zl = np.array([0.3, 1.7, 4.9])[: max(nl, 1)]
+    zl = np.array([4.9, 0.3, 1.7])[: max(nl, 1)]   # levels are kept in the order they were requested: not ascending
     results = {}
     for i, tw in enumerate(cfg.towers, 1):
         lst = []
